@@ -269,6 +269,18 @@ def structural_state(repo):
     init = find_function(t, 'Script.__init__') if t else None
     src = ast.unparse(init) if init else ''
     ok = init is not None and 'self._inference_state = InferenceState(' in src and 'cache.clear_time_caches()' in src
+    # the Script's own buffer is never taken from (or written to) parso's cache by path alone
+    pcalls = [n for n in ast.walk(init) if isinstance(n, ast.Call) and ast.unparse(n.func).endswith('parse_and_get_code')] \
+        if init else []
+    okp0, defp0, detp0 = None, False, ''
+    if len(pcalls) == 1:
+        kw = {k.arg: ' '.join(ast.unparse(k.value).split()) for k in pcalls[0].keywords}
+        detp0 = repr(kw)
+        okp0 = kw.get('cache') == 'False' and kw.get('diff_cache') == 'settings.fast_parser' and kw.get('code') == 'code'
+        defp0 = kw.get('cache') is not None and kw.get('cache') != 'False'
+    out.append({'id': 'script-parse-no-path-cache', 'kind': 'call-pre', 'ok': okp0, 'definite': defp0, 'detail': detp0,
+                'label': 'Script parses its buffer with cache=False: the tree of a buffer is never a tree that parso '
+                         'remembered for that path (only the diff parser, which compares the text, may reuse parts)'})
     out.append({'id': 'script-init', 'kind': 'frame', 'ok': ok if init else None,
                 'label': 'every Script constructs a fresh InferenceState (all inference memoisation hangs off it) and '
                          'drops expired time-cache entries'})
